@@ -2,7 +2,8 @@ import sys, time, traceback
 sys.path.insert(0, "/verif/bin")
 from mirse import run, scenarios, explore
 feats = sys.argv[3].split(",") if len(sys.argv) > 3 and sys.argv[3] else []
-prog, err, secs = run.load_program("/repo", "/verif/work", feats)
+import os
+prog, err, secs = run.load_program(os.environ.get("VERIF_REPO", "/repo"), os.environ.get("VERIF_WORK", "/verif/work"), feats)
 if prog is None:
     print(err); sys.exit(2)
 fn = getattr(scenarios, sys.argv[1]); P = sys.argv[2]
